@@ -462,8 +462,40 @@ func c28WaitQuiescent() {
 		if !c28ClientFrameRe.Match(buf[:n]) {
 			return
 		}
+		// A reader goroutine can be parked for good: the reply handler of a plain RPC sends its verdict
+		// on a one-slot channel; when the caller has already left through Close and the agent answers
+		// that request twice, the second send never completes. Such a goroutine cannot close anything
+		// any more (the statement is about panics and channel closing, not about leaked goroutines),
+		// so it does not stand in the way of quiescence - provided nobody who could still receive from
+		// that channel (a caller inside genericRPC) is left.
+		busy := false
+		for _, g := range strings.Split(string(buf[:n]), "\n\n") {
+			if !c28ClientFrameRe.MatchString(g) {
+				continue
+			}
+			first, _, _ := strings.Cut(g, "\n")
+			if strings.Contains(first, "[chan send") && strings.Contains(g, "genericRPC.func1") && !strings.Contains(g, "client.(*RPCClient).genericRPC(") {
+				continue
+			}
+			busy = true
+			break
+		}
+		if !busy {
+			c28ResMu.Lock()
+			if c28Cur != nil && c28Cur.Cnt != nil {
+				c28Cur.Cnt["trials_ending_with_a_reader_goroutine_parked_for_good"]++
+			}
+			c28ResMu.Unlock()
+			return
+		}
 		if time.Now().After(deadline) {
-			c28Fail("watchdog: client code still running long after Close returned")
+			var stuck []string
+			for _, g := range strings.Split(string(buf[:n]), "\n\n") {
+				if c28ClientFrameRe.MatchString(g) {
+					stuck = append(stuck, g)
+				}
+			}
+			c28Fail("watchdog: client code still running long after Close returned: " + c10Trunc(strings.Join(stuck, " || "), 2500))
 		}
 		if i < 50 {
 			runtime.Gosched()
